@@ -60,6 +60,8 @@ type Run struct {
 	Funcs       map[string]string
 	DischargedSamples []string
 	bounded     bool
+	TraceBudget int
+	Traces      []*TraceSample
 	Wall        time.Duration
 	stop        bool
 }
@@ -119,7 +121,30 @@ func (r *Run) addReach(tag string, m map[string]string) {
 }
 func (r *Run) addFunc(name, hash string) {
 	r.mu.Lock()
-	r.Funcs[name] = hash
+	if _, ok := r.Funcs[name]; !ok {
+		r.Funcs[name] = hash
+	}
+	r.mu.Unlock()
+}
+
+// TraceSample is one complete path with a solver-chosen model and the values the encoding gives to observed outputs.
+type TraceSample struct {
+	Model map[string]string
+	Obs   map[string]string
+}
+
+func (r *Run) wantTrace() bool {
+	r.mu.Lock()
+	defer r.mu.Unlock()
+	if r.TraceBudget > 0 {
+		r.TraceBudget--
+		return true
+	}
+	return false
+}
+func (r *Run) addTrace(t *TraceSample) {
+	r.mu.Lock()
+	r.Traces = append(r.Traces, t)
 	r.mu.Unlock()
 }
 
@@ -282,6 +307,7 @@ func (r *Run) runPath(s *Solver, prefix []int) {
 			}
 		}()
 		it.callFunction(r.Fn, nil, nil, nil)
+		it.sampleTrace()
 	}()
 	if strings.HasPrefix(end, "BOUND-EXCEEDED") {
 		r.mu.Lock()
